@@ -39,7 +39,7 @@ pub static INFO: PropInfo = PropInfo {
 };
 
 pub fn run(ctx: &Ctx, out: &mut Outcome) {
-    super::run_loop(ctx, out, 640, 60_000, 9, one_run);
+    super::run_loop(ctx, out, 640, 36_000, 9, one_run);
 }
 
 pub fn one_run(ctx: &Ctx, out: &mut Outcome, run_seed: u64) {
